@@ -297,11 +297,11 @@ def gen_scalars(r, n):
       else:
         cells.append(['Element', 'Element(Range(1), 0)', 0])
     elif f == 'Range':
-      n_ = r.choice([0, 0, 1, 2, 3, 5, 8])
-      cells.append([f, 'Range(%d)' % n_, list(range(n_))])
+      n_ = r.choice([0, 0, 1, 2, 3, 5, 8, -1, -3])
+      cells.append([f, 'Range(%s)' % lit(n_), list(range(n_))])
     elif f == 'SizeRange':
-      n_ = r.choice([0, 1, 4, 9])
-      cells.append([f, 'Size(Range(%d))' % n_, n_])
+      n_ = r.choice([0, 1, 4, 9, -2])
+      cells.append([f, 'Size(Range(%s))' % lit(n_), max(n_, 0)])
     elif f == 'Size':
       l = r.choice(lists)
       cells.append([f, 'Size(%s)' % lit(l), len(l)]) if l else cells.append([f, 'Size(Range(0))', 0])
@@ -357,7 +357,7 @@ def gen_scalars(r, n):
 EXCLUDED_CELLS = [
     'integer / (engine-dependent: SQLite truncates, BigQuery divides exactly)',
     '% on negative operands', '^ (float result formatting)', 'Sum/Avg over floats',
-    'Element/subscript out of range', 'Range(negative)', 'ArgMin/ArgMax/Array with tied values (excluded by the property)',
+    'Element/subscript out of range', 'ArgMin/ArgMax/Array with tied values (excluded by the property)',
     'List element order (only the multiset is defined)', 'Split with an empty separator', 'ToInt64 of a non-numeric string',
     'ANY_VALUE/TakeFirst (any value is correct by definition)']
 
